@@ -8,6 +8,7 @@ from concurrent.futures import ThreadPoolExecutor
 import e2e
 import vlib
 from engines import register
+from engines import cachelayers
 
 
 def diff_class(repo, t, inc, clean):
@@ -50,7 +51,7 @@ def replay(ctx, idx, beh, opts):
     os.makedirs(base, exist_ok=True)
     cache_dir = os.path.join(base, "cache") if opts.get("cache") else None
     repo = e2e.Repo(os.path.join(base, "repo"), os.path.join(base, "log"), cache_dir=cache_dir,
-                    compress=opts.get("compress", False))
+                    compress=opts.get("compress", False), cmdcache=opts.get("cmdcache", False))
     for f, c in beh["init"]["src"].items():
         repo.write_file(f, c)
     repo.write_defs(beh["init"]["defs"])
@@ -230,7 +231,15 @@ def common(ctx, prop, opts_list, cfgs, quick_n):
         todo = behs
         if opts.get("sample") and ctx.replay_only is None and len(behs) > opts["sample"]:
             # a secondary configuration (e.g. the compressed cache) replays a seeded sample of the same histories
-            todo = random.Random(ctx.seed + oi).sample(behs, opts["sample"])
+            rng = random.Random(ctx.seed + oi)
+            if opts.get("prefer_dirs"):
+                # half of the sample from histories with a directory output (what an unpacking cache can get wrong)
+                isdir = lambda b: '"dir' in json.dumps(b[0])
+                dirs, rest = [b for b in behs if isdir(b)], [b for b in behs if not isdir(b)]
+                nd = min(len(dirs), opts["sample"] // 2)
+                todo = rng.sample(dirs, nd) + rng.sample(rest, min(len(rest), opts["sample"] - nd))
+            else:
+                todo = rng.sample(behs, opts["sample"])
         for (beh, inpl), (viols, st) in run_histories(ctx, todo, opts):
             key = json.dumps([beh, oi, inpl], sort_keys=True)
             ctx.count(key, nontrivial=nontrivial(beh),
@@ -276,18 +285,31 @@ CLAIM02 = dict(
     category="model_checking", design_ref="DESIGN.md §4 C02",
     text="Same specification with the directory cache as a variable (entries keyed by target, definition and input hashes; invariant C02: one key, one "
          "tree) and histories that delete plz-out and move the tree A->B->A; every TLC-generated history is replayed against the real plz binary with "
-         "one shared [cache] dir, with dircompress on and off, and after every build the outputs are compared with a from-scratch build without cache.",
-    note="Bounded as C01; only the local directory cache (HTTP/command caches: C13); trusted as C01.",
-    technique="TLA+ spec Incremental.tla (cache variable) model-checked with TLC; generated histories replayed e2e with the real directory cache, compressed and uncompressed")
+         "CacheLayers.tla models the cache stack of cache.go (store to every layer, retrieve from the first hit and back-fill; directory-cache entries "
+         "hard-linked with plz-out; unpacking over the previous outputs; eviction of the front layer) and its histories are replayed with the directory "
+         "cache in front of the command cache. Incremental.tla's histories run with "
+         "one shared [cache] dir, with dircompress on and off, and (a sample, half of it histories with directory outputs) with the command cache (tar stream unpacked by readTar, shared with the HTTP cache) instead, and after every build the outputs are compared with a from-scratch build without cache.",
+    note="Bounded as C01 (cache stack: one target chain, two versions, <=5 edit/evict/delete steps); the local directory cache and the command cache (the HTTP cache's transport: C13); trusted as C01.",
+    technique="TLA+ spec Incremental.tla (cache variable) model-checked with TLC; generated histories replayed e2e with the real directory cache (compressed and uncompressed) and the real command cache")
 
 
 @register("C02", claim=CLAIM02)
 def run_c02(ctx):
-    ctx.rule = ("histories of Incremental.tla with UseCache=TRUE (edits, plz-out deletion, A->B->A content moves), each replayed with dircompress off and on; "
+    ctx.rule = ("histories of Incremental.tla with UseCache=TRUE (edits, plz-out deletion, A->B->A content moves), each replayed with dircompress off and on and a sample with the command cache; "
                 "non-trivial = edit or plz-out deletion between two builds; distinct by history + cache mode")
     cfgs = [("GEN_Incremental_cache1.cfg", {}, True), ("GEN_Incremental_rencache1.cfg", {}, True), ("GEN_Incremental_dircache.cfg", {}, True),
             ("GEN_Incremental_cache.cfg", {}, False)]
-    common(ctx, "C02", [dict(cache=True, compress=False), dict(cache=True, compress=True, sample=150 if ctx.quick else 3000)], cfgs, quick_n=40)
+    layer_items = None
+    if ctx.replay_only is not None:
+        layer_items = [d for d in ctx.replay_only if d.get("layers")]
+        ctx.replay_only = [d for d in ctx.replay_only if not d.get("layers")]
+    if layer_items is None or layer_items:
+        # the cache stack (directory cache in front of the command cache): spec/CacheLayers.tla
+        cachelayers.run_layers(ctx, layer_items)
+    if (ctx.replay_only is not None and not ctx.replay_only) or os.environ.get("VERIF_C02_ONLY") == "layers":   # (development knob)
+        return
+    common(ctx, "C02", [dict(cache=True, compress=False), dict(cache=True, compress=True, sample=150 if ctx.quick else 3000),
+                        dict(cache=True, cmdcache=True, prefer_dirs=True, sample=60 if ctx.quick else 1500)], cfgs, quick_n=40)
 
 
 CLAIM03 = dict(
